@@ -39,6 +39,7 @@ func (World) Real(string) []string {
 func (World) Stub(string) []string {
 	return []string{
 		"disk: simkit.SimDisk under the storage unit (get_error injection; survives restart)",
+		"accounts seam: pass-through wrapper around the real AccountsDB given to the tx processor (save_error injection on SaveAccount); the driver and the oracle use the AccountsDB directly",
 		"smart contract processor: testscommon.SCProcessorMock (IsPayable=true; any execution call is counted and reported as harness error)",
 		"receipt / bad-tx / scr forwarders: process/mock.IntermediateTransactionHandlerMock; args parser: process/mock.ArgumentParserMock",
 		"shard coordinator: process/mock.oneShardCoordinatorMock (one shard)",
@@ -63,7 +64,9 @@ func (World) Assumptions(string) []string {
 		"redo re-submits an earlier transaction object unchanged (same hash), as the next block attempt does; it is judged like any transaction against the current model",
 		"commit+restart also closes the block for the fee handler (fees handed over, CreateBlockStarted), otherwise an abandon after the restart would erase fees whose debits are already committed",
 		"fee collector = fees of closed blocks (read at commit, then CreateBlockStarted) + current accumulator",
-		"get_error arm: a read error fires only inside ProcessTransaction; accounts must be unchanged after the revert exactly as for any rejection; only the fee accumulator is relaxed (it may keep the fee of the aborted transaction), never under the fault-free arm; revert, commit and oracle reads run without faults",
+		"save_error arm: a fault-injecting pass-through around AccountsDB (the seam between txProcessor and the accounts adapter) fails the n-th SaveAccount call of one ProcessTransaction (0 = sender, 1 = receiver) without applying it; the driver reverts to its journal snapshot as for any rejection and usually retries the same transaction object; it is armed only where the path through the processor is determined from the inputs: predicted insufficient-funds failure, or sure success (nonce and gas valid, balance >= value + gasLimit*gasPrice)",
+		"the ONLY tolerated effect of a fired fault: a rejected transaction that was not a sure success may leave exactly ComputeTxFee(tx) in the fee accumulator. This is what the UNCHANGED executingFailedTransaction does when its SaveAccount fails (ProcessTransactionFee precedes SaveAccount there; the caller reverts the accounts but nobody calls RevertFees for a rejected tx). The model then carries that stray amount (total and collector) keyed by the transaction hash, and expects RevertFees of that hash to remove it with the real booking. A sure-success transaction tolerates nothing: processMoveBalance books the fee only after the last save",
+		"get_error arm: a read error fires only inside ProcessTransaction; accounts must be unchanged after the revert exactly as for any rejection; only the fee accumulator is relaxed as described above, never under the fault-free arm; revert, commit and oracle reads run without faults",
 		"restart happens only right after Commit (no dirty crash); nothing is read right after a restart, the next sweep compares every account with the model (kind changed-outside-its-transactions) and the total (kind conservation)",
 		"whether a rejection left journal entries behind (work for the caller's RevertToSnapshot) is only a probe: the statement is read at the level of the block processor protocol, which always reverts a rejected transaction",
 	}
@@ -72,7 +75,7 @@ func (World) Assumptions(string) []string {
 func (World) Rule(string) string {
 	return "2-4 user accounts (one may not exist yet) plus 0-12 bystander accounts in a committed genesis, balances around multiples of minGasLimit*minGasPrice (0, exactly one fee, +-1, huge); economics drawn per run (min gas price 1/10/1e9, min gas limit 1/500/50000, gas per byte 0/1/1500, modifier 0.01/0.5/1, max gas per block), enable epochs of penalized-too-much-gas / gas-price-modifier / meta-protection / relayed drawn 0-3 and a start epoch, trie level in memory 1-5, storer cache 1-100, four address layouts (one deep: alternating branch/extension nodes so that commits collapse nodes and transactions read the disk); " +
 		"5-40 transactions: value absolute (0, 1, fee-sized, above total supply, too many bytes) or relative to the sender balance (balance - fee +-k for three fee readings, balance + k), gas price min+k / below min / absolute, gas limit required+k / required-1 / at the block limit, data 0-12 bytes, nonce equal / lower / +1 / +7, sender==receiver; up to 25% of the transactions of a run aim at the insufficient-funds window (correct nonce, valid gas, value = balance - fee + k), half of them as self transfers; epoch changes, commit (end of block), commit+restart from the root; in 60% of the runs also dropLastMiniblock (1-3 most recent transactions reverted by snapshot and by hash, half of the time re-executed) and newBlockAttempt (everything since the last commit abandoned, the last 1-4 transaction objects executed again, sometimes dropped again); " +
-		"arm get_error fails the n-th (0-3) disk read inside ProcessTransaction on 10-50% of the transactions (that arm commits and restarts more often and keeps 1-3 trie levels in memory, so reads are cold); after every transaction the oracle reads sender and receiver only, every account is swept at the end of each block, before each restart and at the end of the run; " +
+		"arm save_error fails the sender's or the receiver's SaveAccount inside ProcessTransaction on 10-50% of the transactions and retries 70% of them; arm get_error fails the n-th (0-3) disk read inside ProcessTransaction on 10-50% of the transactions (that arm commits and restarts more often and keeps 1-3 trie levels in memory, so reads are cold); after every transaction the oracle reads sender and receiver only, every account is swept at the end of each block, before each restart and at the end of the run; " +
 		"non-trivial = at least one successful transfer and at least one charged failure or rejection; distinct = hash of full plan"
 }
 
